@@ -1034,9 +1034,9 @@ func (w *_assembler) AssignString(s string) error {
 			if !ok {
 				return fmt.Errorf("bindnode: enum %s is held in a Go %s but member %q has no representation int", enumType.Name(), val.Kind(), s)
 			}
-			if kindInt[val.Kind()] {
+			if kindInt[val.Kind()] && !val.OverflowInt(int64(reprInt)) {
 				val.SetInt(int64(reprInt))
-			} else if kindUint[val.Kind()] && reprInt >= 0 {
+			} else if kindUint[val.Kind()] && reprInt >= 0 && !val.OverflowUint(uint64(reprInt)) {
 				val.SetUint(uint64(reprInt))
 			} else {
 				return fmt.Errorf("bindnode: cannot assign %d to %s", reprInt, val.Type())
